@@ -316,10 +316,12 @@ def ref_filter_weights(cfg, flt, yo, yc, failed, cw, tm):
         nl = cfg["nonlinear_constraints"]
         lo = float(tm.con_to_opt(np.asarray(nl["lower_bounds"], float))[j])
         hi = float(tm.con_to_opt(np.asarray(nl["upper_bounds"], float))[j])
-        if np.isfinite(lo) or np.isfinite(hi):
-            bad = np.maximum(lo - vals, vals - hi)
+        if np.isfinite(lo) and np.isfinite(hi):
+            bad = np.maximum(lo - vals, vals - hi)  # two-sided / equality: distance beyond (or to) the nearer bound
+        elif np.isfinite(lo):
+            bad = -vals  # lower-bounded: the smallest values are the worst (ranked on the values themselves)
         else:
-            bad = vals
+            bad = vals  # upper-bounded or unbounded: the largest values are the worst
         s2 = np.sort(bad[~failed])
         ties = s2.size > 1 and np.min(np.diff(s2)) < 1e-9
     w, _ = model.cvar_weights_exact(bad, failed, p)
